@@ -26,7 +26,7 @@ def lname(s):
 
 
 import re as _re
-TRACER = _re.compile(r"z[qms]\d+x\d+w\d+")
+TRACER = _re.compile(r"z[qmsc]\d+x\d+w\d+")      # q body, m metadata value, s summary, c ordinary comment (never in docs)
 
 
 def docwords(doc):
